@@ -60,6 +60,11 @@ fn main() {
         }
         "worker" => {
             // worker <ID> <tier> <seed> <lo> <hi> <out> <last>
+            // a worker does not outlive its supervisor (a supervisor ended from outside would leave workers that spin for ever
+            // in a case that does not terminate)
+            unsafe {
+                libc::prctl(libc::PR_SET_PDEATHSIG, libc::SIGKILL);
+            }
             if args.len() < 9 {
                 usage()
             }
@@ -76,6 +81,9 @@ fn main() {
             dispatch!(id, run_worker(wa))
         }
         "exec-case" => {
+            unsafe {
+                libc::prctl(libc::PR_SET_PDEATHSIG, libc::SIGKILL);
+            }
             let id = args[2].as_str();
             let tier = args.get(3).and_then(|s| Tier::parse(s)).unwrap_or(Tier::Quick);
             use supervisor::exec_case_main;
